@@ -521,9 +521,31 @@ def bound_twice_cases():
                 yield {"kind": "matrix", "main": main, "partials": {"p": "[{{ b }}{{ " + name + " }}]"}, "datas": datas, "async": False, "async_analysis": len(main) % 2 == 0}
 
 
+def reentrant_cases():
+    """A partial that re-enters itself (or its includer) with other arguments before it reaches a further partial: whatever pass of the
+    analysis gets to that further partial first, its variables, filters and tags are what a render evaluates."""
+    datas = [V.enc({"d": True, "q": "hi", "a": "GA", "b": "GB", "n": 2, "xs": [1, 2]}), V.enc({"d": False, "q": "lo", "n": 0, "xs": []})]
+    leaf = "{{ q | upcase }}{% echo b | append: a %}{% for i in xs %}{{ i | plus: n }}{% endfor %}"
+    for tag2 in ("include", "render"):
+        call_leaf = "{% " + tag2 + " 'leaf'" + (", q: q, b: b, a: a, xs: xs, n: n" if tag2 == "render" else "") + " %}"
+        shapes = {
+            "self-with-arg-then-leaf": {"rec": "{% if d %}{% assign d = false %}{% include 'rec', depth: 1 %}{% endif %}" + call_leaf, "main": "{% include 'rec' %}"},
+            "leaf-inside-the-reentry": {"rec": "{% if d %}{% assign d = false %}{% include 'rec', depth: 1 %}{% else %}" + call_leaf + "{% endif %}", "main": "{% include 'rec' %}{{ a }}"},
+            "mutual": {"rec": "{% if d %}{% assign d = false %}{% include 'other', k: 1 %}{% endif %}", "other": "{% include 'rec', k: 2 %}" + call_leaf, "main": "{% include 'rec' %}"},
+            "reentry-from-a-loop": {"rec": "{% for i in xs %}{% if d %}{% assign d = false %}{% include 'rec', i: i %}{% endif %}{% endfor %}" + call_leaf, "main": "{% include 'rec' %}{% include 'rec', z: 1 %}"},
+            "main-reenters-itself": {"main": "{% if d %}{% assign d = false %}{% include 'main', depth: 1 %}{% endif %}" + call_leaf},
+            "twice-then-reentry": {"rec": call_leaf + "{% if d %}{% assign d = false %}{% include 'rec', depth: 1 %}{% endif %}" + call_leaf, "main": "{% include 'rec' %}"},
+        }
+        for name, tpls in shapes.items():
+            partials = {k: v for k, v in tpls.items() if k != "main"}
+            partials["leaf"] = leaf
+            for is_async in (False, True):
+                yield {"kind": "matrix", "main": tpls["main"], "partials": partials, "datas": datas, "async": is_async, "async_analysis": is_async}
+
+
 def cases(ctx: core.Ctx):
     rng = ctx.rng("cases")
-    for i, c in enumerate(itertools.chain(twice_in_block_cases(), bound_twice_cases())):
+    for i, c in enumerate(itertools.chain(twice_in_block_cases(), bound_twice_cases(), reentrant_cases())):
         if i % ctx.nshards == ctx.shard:
             yield c
     for i in range(ctx.budget(3000, 400_000)):
